@@ -35,20 +35,14 @@ class Mesh3D(Mesh):
     def boundary_edges(self) -> ndarray:
         """Return an array of boundary edge indices."""
         facets = self.boundary_facets()
-        boundary_edges = np.sort(np.hstack(
-            tuple([np.vstack((self.facets[itr, facets],
-                              self.facets[(itr + 1) % self.facets.shape[0],
-                              facets]))
-                   for itr in range(self.facets.shape[0])])).T, axis=1)
-        edge_candidates = np.unique(self.t2e[:, self.f2t[0, facets]])
-        A = self.edges[:, edge_candidates].T
-        B = boundary_edges
-        dims = A.max(0) + 1
-        ix = np.where(np.isin(
-            np.ravel_multi_index(A.T, dims),  # type: ignore
-            np.ravel_multi_index(B.T, dims),  # type: ignore
-        ))[0]
-        return edge_candidates[ix]
+        # edges of the adjacent cell with both end points on the boundary facet
+        candidates = self.t2e[:, self.f2t[0, facets]]
+        ends = self.edges[:, candidates]
+        vertices = self.facets[:, facets]
+        on_facet = ((ends[:, :, None, :] == vertices[None, None, :, :])
+                    .any(axis=2)
+                    .all(axis=0))
+        return np.unique(candidates[on_facet])
 
     def interior_edges(self) -> ndarray:
         """Return an array of interior edge indices."""
